@@ -787,6 +787,8 @@ impl Reader {
       writer_sn,
     );
 
+    #[cfg(rustdds_verif)]
+    crate::verif::hooks::yield_point(10);
     // Add to own track-keeping data structure
     #[cfg(test)]
     self.seqnum_instant_map.insert(writer_sn, receive_timestamp);
@@ -1256,9 +1258,13 @@ impl Reader {
       .unwrap() // TODO: unwrap
       .take() // Take to nullify the reference
       .map(|w| w.wake_by_ref()); // If Some, call wake_by_ref
+    #[cfg(rustdds_verif)]
+    crate::verif::hooks::yield_point(11);
 
     // mio-0.8 notify
     self.poll_event_sender.send();
+    #[cfg(rustdds_verif)]
+    crate::verif::hooks::yield_point(12);
 
     // mio-0.6 notify
     match self.notification_sender.try_send(()) {
